@@ -259,4 +259,21 @@ CHECKS = {
         "level_note": "A Decoder handle is replaced after an error or a recovered panic (a stream cannot be resynchronised; the statement is read as 'option state is not sticky'). Every history starts from a fresh process, so the first use of each type happens inside the history.",
         "assumptions": ["the outcome of a pool call in a fresh process is deterministic (checked: cold calls that do not complete are excluded and counted)"],
     },
+    "C10": {
+        "pkg": "c10",
+        "corpus": {"quick": 3000, "thorough": 6000, "profile": "mixed"},
+        "variants": [{"name": "race", "race": True, "stall_wall": 120, "shards": {"quick": 16, "thorough": 32}},
+                     {"name": "plain", "stall_wall": 120, "shards": {"quick": 16, "thorough": 32}}],
+        "mem_gb": 8,
+        "rule": ("rounds: G in {2,4,16,64} goroutines x GOMAXPROCS in {1,2,4,16}, released by one barrier, each running the whole operation mix of the round in its own order (some operations twice, a third of the "
+                 "goroutines starting with the same one, Gosched jitter): Marshal, Marshal(&v), MarshalIndent, own Encoder, Unmarshal, own Decoder, Valid+Compact+Indent, MarshalContext with one FieldQuery shared "
+                 "by all goroutines, Extract on one shared Path, over 3 corpus types per round that nothing in the process has touched before (generated-source corpus, per-shard slice) plus run-time-created types "
+                 "around them (reflect.StructOf/ArrayOf/MapOf/SliceOf: fallback cache) and a 40-key nested map (pooled map contexts). Oracles: every result equals the result of the same call made alone "
+                 "afterwards, and encoding/json's where defined; no panic; race build: the race detector (halt_on_error) reports nothing with a go-json frame; no deadlock (120 s without progress and CPU). "
+                 "Two builds: -race (mutex cache code) and plain (unsynchronised cache code). Non-trivial = round with fresh compiled types; distinct by (shard, round, G, GOMAXPROCS, seed)."),
+        "technique": "randomised concurrency testing: generated rounds of goroutines over cold types with a sequential-replay oracle and an encoding/json differential, under the race detector and in the production build",
+        "level_text": "Schedules are sampled (repetition, varied G/GOMAXPROCS, jitter), not enumerated; exploration level.",
+        "level_note": "No scheduler control is available: interleavings are sampled by repetition. The unsynchronised publish of the production build is compiled out under -race and is examined behaviourally only (wrong results, crashes).",
+        "assumptions": ["a call made alone after the round returns the reference result (C11)"],
+    },
 }
